@@ -202,7 +202,7 @@ impl Check for C13 {
         tier.pick(10_000, 200_000)
     }
     fn required_counters(&self, _tier: Tier) -> Vec<&'static str> {
-        vec!["mut:content", "mut:signature", "proof:faulty", "expiry:judged", "historical:judged", "node:duty-events", "node:own-quote-forged", "node:history-steps", "node:late-older-quotes", "node:inconsistent-quotes"]
+        vec!["mut:content", "mut:signature", "proof:faulty", "expiry:judged", "historical:judged", "node:duty-events", "node:own-quote-forged", "node:history-steps", "node:late-older-quotes", "node:inconsistent-quotes", "node:peer-left-the-routing-table-between-quotes", "historical:later-quote-dated-ahead-of-our-clock"]
     }
     fn run_case(&self, cx: &mut Cx) {
         // every 8th case runs the node's quote-verification duty and the driver's per-peer quote history
@@ -420,9 +420,15 @@ impl Check for C13 {
 
         // (d) historical consistency
         for _ in 0..4 {
-            let t_old = SystemTime::now() - Duration::from_secs(cx.rng.gen_range(100..3000));
+            // one case in four: the quoting peer's clock runs a few seconds ahead of ours, so its newest quote is dated
+            // in our future (quotes up to 10 s apart from ours are still examined)
+            let ahead = cx.rng.gen_bool(0.25);
             let gap = cx.rng.gen_range(1..90u64);
+            let t_old = if ahead { SystemTime::now() + Duration::from_secs(cx.rng.gen_range(2..9)) - Duration::from_secs(gap) } else { SystemTime::now() - Duration::from_secs(cx.rng.gen_range(100..3000)) };
             let t_new = t_old + Duration::from_secs(gap);
+            if ahead {
+                cx.count("historical:later-quote-dated-ahead-of-our-clock");
+            }
             let mut m_old = random_metrics(&mut cx.rng);
             m_old.live_time = cx.rng.gen_range(100..1_000_000);
             m_old.received_payment_count = cx.rng.gen_range(10..1000);
@@ -616,6 +622,18 @@ fn node_case(cx: &mut Cx) {
     }
     if ok {
         if let Some(na) = newest {
+            // in between the peer may drop out of the routing table and come back (connection error, eviction): what it
+            // quoted before still binds it
+            if cx.rng.gen_bool(0.5) {
+                let (added, removed) = {
+                    let _g = sim.rt.enter();
+                    (sim.nodes[0].drv.verif_add_peer(peer, crate::sim::quic_addr(33_333)), sim.nodes[0].drv.verif_remove_peer(peer))
+                };
+                if added && removed {
+                    cx.count("node:peer-left-the-routing-table-between-quotes");
+                    hist.push(json!("peer dropped out of the routing table"));
+                }
+            }
             let age = na - cx.rng.gen_range(50..250);
             let (true_live, true_pay) = (start_age - na, ((start_age - na) / 400) as usize);
             let (live, pay, label) = if cx.rng.gen_bool(0.5) { (true_live - cx.rng.gen_range(1..2000), true_pay, "later-quote-with-less-uptime") } else { (start_age - age, true_pay - cx.rng.gen_range(1..10), "later-quote-with-fewer-payments") };
